@@ -96,6 +96,10 @@ func vdRun(t *testing.T, tr *vkTrace, bh vdBehaviour, pair *vdPair) (bool, bool)
 	tr.Reset(bh.ID)
 	label := fmt.Sprintf("x%d", bh.ID)
 	ordered := !bh.Free
+	// store events are ordered like the stores only while the driver moves one actor at a time: the event
+	// is emitted after the compare-and-swap, not atomically with it
+	var inOrder atomic.Bool
+	inOrder.Store(ordered)
 	var mu sync.Mutex
 	var dcp *DataChannel
 	var opens, closes atomic.Int64
@@ -167,7 +171,7 @@ func vdRun(t *testing.T, tr *vkTrace, bh vdBehaviour, pair *vdPair) (bool, bool)
 		if by == "" {
 			by = "pion"
 		}
-		tr.Emit(vkM{"ev": "store", "t": bh.ID, "to": st.String(), "by": by, "ordered": ordered,
+		tr.Emit(vkM{"ev": "store", "t": bh.ID, "to": st.String(), "by": by, "ordered": inOrder.Load(),
 			"sig": fmt.Sprintf("store(%s,by=%s,start=%s)", st.String(), by, bh.Start)})
 	}
 	// never waits for the transport's lock: PeerConnection.Close holds it while it stores closed on
@@ -362,6 +366,7 @@ func vdRun(t *testing.T, tr *vkTrace, bh vdBehaviour, pair *vdPair) (bool, bool)
 				}
 			}
 		}
+		inOrder.Store(false) // from here on the actors run freely
 		gates.ReleaseAll()
 	}
 	// quiescence: started calls returned; if the transport is gone the read loop ended
